@@ -82,6 +82,7 @@ func C14(ctx *core.Ctx, r *core.Report) {
 	e.record("crash", sites, c14Triage)
 	c14ModuleXorError(ctx, r)
 	c14GuardBacking(ctx, r)
+	c14Recursion(ctx, r, roots)
 }
 
 // c14ModuleXorError (K7): in every function of the load path that returns
@@ -236,6 +237,40 @@ func c14GuardBacking(ctx *core.Ctx, r *core.Report) {
 	} else {
 		r.Fatalf("anchor meta.Builder.Default not found")
 	}
+	// (d) visited guards of the other recursion cycles: a map test that returns before, and a map update that precedes, the recursive call
+	for _, g := range []struct{ fn, callee, key, what string }{
+		{"meta.compiler.compileImport", "meta.compiler.compileImport", "import-visited", "mutual or self imports recurse until the stack is exhausted"},
+		{"meta.resolver.copyOverIncludes", "meta.resolver.copyOverSubmoduleData", "include-visited", "a submodule that includes itself is re-loaded for ever"},
+		{"meta.compiler.identity", "meta.compiler.compile", "identity-cycle", "an identity derived from itself compiles, and FindIdentity later recurses for ever"},
+		{"meta.resolver.module", "meta.resolver.module", "module-visited", "mutually importing modules are loaded again and again"},
+	} {
+		f := ctx.Lookup(g.fn)
+		callee := ctx.Lookup(g.callee)
+		if f == nil || callee == nil {
+			r.Fatalf("anchors %s / %s not found", g.fn, g.callee)
+			continue
+		}
+		ok := false
+		for _, c := range callsStatic(f, callee, false) {
+			marked, tested := false, false
+			core.Instrs(f, func(_ *ssa.BasicBlock, in ssa.Instruction) {
+				switch x := in.(type) {
+				case *ssa.MapUpdate:
+					if instrDominates(x, c) {
+						marked = true
+					}
+				case *ssa.Lookup:
+					if x.CommaOk && (instrDominates(x, c) || x.Block().Dominates(c.Block())) {
+						tested = true
+					}
+				}
+			})
+			if marked && tested {
+				ok = true
+			}
+		}
+		r.Ob("guard-backing", g.fn+"/"+g.key, ctx.Pos(f.Pos()), ok, "the recursion is not cut by a visited test and mark before the recursive call: "+g.what)
+	}
 	// (c) typedef recursion guard
 	if ft := ctx.Method("meta", "compiler", "findTypedef"); ft != nil {
 		comp := ctx.Method("meta", "compiler", "compile")
@@ -262,4 +297,39 @@ func c14GuardBacking(ctx *core.Ctx, r *core.Report) {
 	} else {
 		r.Fatalf("anchor meta.compiler.findTypedef not found")
 	}
+}
+
+// c14Recursion (K5): every recursion cycle of the load path is in a frozen
+// table with its termination argument; a new cycle (or a changed one) must be
+// triaged before the check passes again.
+func c14Recursion(ctx *core.Ctx, r *core.Report, roots []*ssa.Function) {
+	cycles := recursionCycles(ctx, roots, func(f *ssa.Function) bool {
+		p := core.FnPkgPath(f)
+		return (p == core.Full("meta") || p == core.Full("parser")) && len(f.Blocks) > 0
+	})
+	for _, c := range cycles {
+		key := strings.Join(c, " ↔ ")
+		reason, ok := c14Cycles[key]
+		msg := "terminates: " + reason
+		if !ok {
+			msg = "a recursion cycle on the load path that is not in the table of cycles with a termination argument: self-referential input may recurse until the stack is exhausted"
+		}
+		r.Ob("recursion-terminates", key, "-", ok, msg)
+	}
+	r.Floor("recursion-terminates", len(cycles), 5)
+}
+
+var c14Cycles = map[string]string{
+	"meta.Augment.clone ↔ meta.Choice.clone ↔ meta.ChoiceCase.clone ↔ meta.Container.clone ↔ meta.Extension.clone ↔ meta.Grouping.clone ↔ meta.List.clone ↔ meta.Module.clone ↔ meta.Notification.clone ↔ meta.Rpc.clone ↔ meta.RpcInput.clone ↔ meta.RpcOutput.clone": "structural descent on the parsed definition tree, which is finite: a `uses` is a leaf of that tree (it is copied, not expanded, by clone), so a grouping cannot contain itself structurally",
+	"meta.Find":              "consumes its path argument: each recursive call gets the remainder after the first '/'",
+	"meta.FindIdentity":      "descends the derived lists of identities, which are acyclic: compiler.identity rejects an identity that is derived from itself (rule guard-backing/identity-cycle)",
+	"meta.MetaPath.toBuffer": "walks the Parent chain of a schema path, which ends at the module",
+	"meta.compiler.compile ↔ meta.compiler.compileType ↔ meta.compiler.findTypedef ↔ meta.compiler.identity": "typedef chains are guarded by compiler.typedefsInProgress (rule guard-backing/visited-guard), identity chains by identitiesInProgress and `base != nil`, data definitions by compiler.pool; otherwise structural descent",
+	"meta.compiler.compileImport": "guarded by compiler.importsCompiled: a module is visited once however the imports refer to each other (rule guard-backing/import-visited)",
+	"meta.compiler.inheritConfig": "walks the Parent chain to the nearest ancestor that states config, ends at the module",
+	"meta.ifFeatureEval.eval":     "consumes the expression: every call reads at least one token before it recurses and returns at end of text",
+	"meta.resolver.addDataDefinition ↔ meta.resolver.addDefinitions ↔ meta.resolver.enter ↔ meta.resolver.expandAugment ↔ meta.resolver.expandUses": "recursive groupings are cut by resolver.inProgressUses (C01 rule recursion-guard); otherwise structural descent on the definition tree",
+	"meta.resolver.copyOverIncludes ↔ meta.resolver.copyOverSubmoduleData":                                                                          "guarded by resolver.includedSubmodules: a submodule is merged into a module once (rule guard-backing/include-visited)",
+	"meta.resolver.module": "guarded by resolver.loadedModules: an import of a module that is already loaded reuses it instead of recursing",
+	"parser.lexer.acceptString ↔ parser.lexer.acceptToken": "consumes input: each round accepts a non-empty string token or stops",
 }
